@@ -800,3 +800,143 @@ def run_case_crate(name, cases, prelude="", toolchain=None, features=("full",), 
             if missing:
                 obs[_k(missing[0])] = {"k": missing[0], "crashed": True, "stderr": err[-800:]}
     return obs, failed, last
+
+
+# ------------------------------------------------------------------------------------------------
+# hygiene twins: the same item generated by a macro_rules! macro that gets the user's names from its caller
+# ------------------------------------------------------------------------------------------------
+_TOK = re.compile(r"""r#[A-Za-z_]\w*|[A-Za-z_]\w*|'[A-Za-z_]\w*(?!')|"(?:[^"\\]|\\.)*"|'(?:[^'\\]|\\.)+'|\d[\w.]*|::|->|=>|[^\s\w]""")
+
+
+def hygiene_twin(mod_text, tag="h"):
+    """The first derive_more-derived struct / enum of a probe module, GENERATED BY A macro_rules! MACRO: the derive (and the item's
+    attributes) are written in the macro's body, the names of its variants and named fields are `$h0:ident ..` fragments that
+    the macro's caller passes in. The names then carry another hygiene context than the derive's call site, which is how a real
+    crate's declarative macros produce their types; an expansion that rebuilds `self`, a parameter or a binding with a
+    variant's / field's span no longer compiles. Items whose attributes hold a string literal are left alone (a format
+    string's implicit captures resolve in the literal's own context - there `format!` itself cannot see the caller's names).
+    Returns the transformed module text, or None when there is nothing to transform."""
+    m = re.search(r"#\[derive\([^\]]*derive_more::", mod_text)
+    if not m:
+        return None
+    start = m.start()
+    # attributes written BEFORE the derive_more derive belong to the item too
+    while True:
+        pre = mod_text[:start].rstrip()
+        if not pre.endswith("]"):
+            break
+        d, k = 0, len(pre) - 1
+        while k >= 0:
+            if pre[k] == "]":
+                d += 1
+            elif pre[k] == "[":
+                d -= 1
+                if d == 0:
+                    break
+            k -= 1
+        if k < 1 or pre[k - 1] != "#":
+            break
+        start = k - 1
+    toks = [(t.group(0), t.start() + start, t.end() + start) for t in _TOK.finditer(mod_text[start:])]
+    # walk: attributes, visibility, struct|enum, name, ... body
+    i, depth, kind, body_open, end = 0, 0, None, None, None
+    n = len(toks)
+    while i < n:
+        t = toks[i][0]
+        if depth == 0 and kind is None and t in ("struct", "enum"):
+            kind = t
+        elif depth == 0 and kind is None and t == "union":
+            return None
+        if t in "([{":
+            if depth == 0 and kind and body_open is None and t in "{(" and not _in_attr(toks, i):
+                body_open = i
+            depth += 1
+        elif t in ")]}":
+            depth -= 1
+            if depth == 0 and body_open is not None and toks[body_open][0] == "{" and t == "}":
+                end = toks[i][2]
+                break
+        elif t == ";" and depth == 0 and kind:
+            end = toks[i][2]
+            break
+        i += 1
+    if kind is None or end is None:
+        return None
+    item = mod_text[start:end]
+    toks = [x for x in toks if x[2] <= end]
+    if any(x[0].startswith('"') for x in toks):
+        return None
+    # positions of variant names and named-field names
+    repl = []       # (token index)
+    depth = 0
+    stack = []      # what each open group is: "enum", "fields", "other"
+    seen_kind = False
+    prev_sig = None
+    j = 0
+    while j < len(toks):
+        t = toks[j][0]
+        if t == "#" and j + 1 < len(toks) and toks[j + 1][0] == "[":
+            # skip the attribute group
+            d, j2 = 0, j + 1
+            while j2 < len(toks):
+                if toks[j2][0] == "[":
+                    d += 1
+                elif toks[j2][0] == "]":
+                    d -= 1
+                    if d == 0:
+                        break
+                j2 += 1
+            j = j2 + 1
+            continue
+        if t in ("struct", "enum") and not stack:
+            seen_kind = True
+        if t in "([{":
+            if not stack and seen_kind and t == "{":
+                stack.append("enum" if kind == "enum" else "fields")
+            elif stack and stack[-1] == "enum" and t == "{":
+                stack.append("fields")
+            else:
+                stack.append("other")
+            prev_sig = t
+            j += 1
+            continue
+        if t in ")]}":
+            if stack:
+                stack.pop()
+            prev_sig = t
+            j += 1
+            continue
+        if stack and re.match(r"(r#)?[A-Za-z_]\w*$", t) and t not in ("pub", "crate", "in", "super", "self"):
+            nxt = toks[j + 1][0] if j + 1 < len(toks) else ""
+            if stack[-1] == "enum" and prev_sig in ("{", ","):
+                repl.append(j)
+            elif stack[-1] == "fields" and nxt == ":" and prev_sig in ("{", ",", "pub", ")"):
+                repl.append(j)
+        if t != "pub" or True:
+            prev_sig = t
+        j += 1
+    if not repl:
+        return None
+    out, last, names = [], start, []
+    for k, j in enumerate(repl):
+        out.append(mod_text[last:toks[j][1]])
+        out.append(f"$h{k}")
+        names.append(toks[j][0])
+        last = toks[j][2]
+    out.append(mod_text[last:end])
+    params = " ".join(f"$h{k}:ident" for k in range(len(names)))
+    macro = f"macro_rules! mk_{tag} {{ ({params}) => {{ {''.join(out)} }} }}\nmk_{tag}!({' '.join(names)});"
+    return mod_text[:start] + macro + mod_text[end:]
+
+
+def _in_attr(toks, i):
+    """is token i inside a #[...] group? (scan back for an unclosed `#[`)"""
+    d = 0
+    for k in range(i - 1, -1, -1):
+        if toks[k][0] == "]":
+            d += 1
+        elif toks[k][0] == "[":
+            if d == 0:
+                return k > 0 and toks[k - 1][0] == "#"
+            d -= 1
+    return False
